@@ -265,6 +265,36 @@ def run(ctx):
                     # a reciprocal sum: 1/x + 1/y of two components of one quantity type, from parts and from the named reciprocal rows
                 except Exception as e:
                     ctx.violation("dynamic-reciprocals-raised:%s" % r["unit"].replace(" ", "_"), {"row": r["unit"], "error": repr(e)[:200]}, replay={"row": r["unit"]})
+                # ... and as a fold that starts from a unit-less one (acc = 1; acc = acc * part ...), and with the same-type
+                # ratio taken first ('lbf.ft/in' as (ft/in) * lbf): a unit-less amount on the *left* of a product
+                try:
+                    acc5 = Scalar.CreateEmptyScalar(1.0)
+                    for pre, s_, e in r["parts"]:
+                        for _ in range(abs(e)):
+                            acc5 = acc5 * Scalar(pre, s_) if e > 0 else acc5 / Scalar(pre, s_)
+                    forms5 = [("fold from a unit-less one", acc5)]
+                    by_type = {}
+                    for pre, s_, e in r["parts"]:
+                        by_type.setdefault(infos[s_].quantity_type, []).append((pre, s_, e))
+                    pair = next(((a, b) for lst in by_type.values() for a in lst for b in lst if a[2] > 0 > b[2]), None)
+                    if pair is not None:
+                        (p1, s1, e1), (p2, s2, e2) = pair
+                        acc6 = Scalar(p1, s1) / Scalar(p2, s2)  # unit-less when it is one unit over another of its type
+                        rest = []
+                        for pre, s_, e in r["parts"]:
+                            k = abs(e) - (1 if (pre, s_, e) in ((p1, s1, e1), (p2, s2, e2)) else 0)
+                            rest += [(pre, s_, e)] * k
+                        for pre, s_, e in rest:
+                            acc6 = acc6 * Scalar(pre, s_) if e > 0 else acc6 / Scalar(pre, s_)
+                        forms5.append(("same-type ratio first", acc6))
+                    for form, a5 in forms5:
+                        ctx.ev()
+                        ctx.count("rows composed with a unit-less amount on the left")
+                        g5 = dims.basemag(T, a5.GetValue(), dims.items_of(a5.GetQuantity())) * Fr(ref["k"])
+                        if not abs(float(g5 / got) - 1) <= 1e-9:
+                            ctx.violation("two-compositions-of-the-same-parts-differ", {"row": r["unit"], "by_multiplication": repr(acc), form: repr(a5), "ratio": float(g5 / got)}, replay={"row": r["unit"]})
+                except Exception as e:
+                    ctx.violation("dynamic-fold-raised:%s" % r["unit"].replace(" ", "_"), {"row": r["unit"], "error": repr(e)[:200]}, replay={"row": r["unit"]})
                 # a row that is one component at an exponent ('1/ft', 'ft2', '1/psi'): the (unit, exponent) overload of the
                 # conversion - Convert(qt, [(u, e)], [(base, e)], x) and GetValue([(base, e)]) of the derived amount - tells the
                 # same factor as the product of the component's factors
